@@ -91,12 +91,17 @@ Section Spec.
 
   Definition tget (k : Z) : tensor := match dget k (tensors n) with Some t => t | None => mkT 0 [] [] 0 end.
 
-  Theorem as_einsum_spec_correct E v am :
-    as_einsum_spec n = Some E -> contract_with E n data = Some (v, am) ->
-    exists shp, shape n = Some shp /\ am = e_amap E /\ fst (to_full_tensor v am) = shp /\
-      forall x, in_range shp x -> snd (to_full_tensor v am) x = defining_sum n data x.
+  (** the functional form is an injective labelling in the sense of TNEinsum.ContractWith *)
+  Lemma spec_hyps E : as_einsum_spec n = Some E ->
+    exists (lab : Z -> nat) (ts : list tensor) (vt : tensor),
+      (forall b b', In b (dkeys (bonds n)) -> In b' (dkeys (bonds n)) -> lab b = lab b' -> b = b') /\
+      Permutation ts (real_tensors n) /\ dget VT (tensors n) = Some vt /\
+      omap (fun tid => dget tid (tensors n)) (e_tids E) = Some ts /\
+      e_tidx E = map (fun t => map lab (t_bids t)) ts /\
+      e_out E = first_occ (map lab (t_bids vt)) [] /\
+      omap (fun i => nindex i (e_out E)) (map lab (t_bids vt)) = Some (e_amap E).
   Proof.
-    intros HE HC. unfold as_einsum_spec in HE.
+    intros HE. unfold as_einsum_spec in HE.
     set (tids := sorted_tids n) in *.
     destruct (Z.eqb_spec (last tids 0) VT) as [Hlast|]; [|discriminate].
     destruct (omap (fun tid => dget tid (tensors n)) tids) as [tsall|] eqn:Ots; [|discriminate].
@@ -160,15 +165,28 @@ Section Spec.
         rewrite app_nil_r. symmetry. apply filter_all_true.
         intros k Hk. apply negb_true_iff, Z.eqb_neq. intros ->. contradiction. }
       rewrite Ef at 1. rewrite <- Esplit. symmetry. apply perm_filter. exact Pt. }
-    destruct (contract_with_correct n data W lab lab_inj ts vt
-                (mkE rtids (removelast (map (fun t => map lab (t_bids t)) (ts ++ [vt])))
-                     (first_occ (last (map (fun t => map lab (t_bids t)) (ts ++ [vt])) []) []) amap)
-                Pts Hvt) with (v := v) (am := am) as [A [B C]].
-    - cbn [e_tids]. exact Ots1.
-    - cbn [e_tidx]. exact Etidx.
-    - cbn [e_out]. rewrite Eout. reflexivity.
-    - cbn [e_out e_amap]. rewrite Eout. exact Oam.
-    - exact HC.
-    - exists (t_shape vt). unfold shape. rewrite Hvt. cbn. auto.
+    exists lab, ts, vt. cbn [e_tids e_tidx e_out e_amap]. rewrite Eout.
+    split; [exact lab_inj|]. split; [exact Pts|]. split; [first [exact Hvt | reflexivity]|]. split; [exact Ots1|].
+    split; [exact Etidx|]. split; [reflexivity | exact Oam].
+  Qed.
+
+  Theorem as_einsum_spec_correct E v am :
+    as_einsum_spec n = Some E -> contract_with E n data = Some (v, am) ->
+    exists shp, shape n = Some shp /\ am = e_amap E /\ fst (to_full_tensor v am) = shp /\
+      forall x, in_range shp x -> snd (to_full_tensor v am) x = defining_sum n data x.
+  Proof.
+    intros HE HC. destruct (spec_hyps E HE) as [lab [ts [vt [LI [Pts [Hvt [H1 [H2 [H3 H4]]]]]]]]].
+    destruct (contract_with_correct n data W lab LI ts vt E Pts Hvt H1 H2 H3 H4 v am HC) as [A [B C]].
+    exists (t_shape vt). unfold shape. rewrite Hvt. cbn. auto.
+  Qed.
+
+  Theorem as_einsum_spec_total E : as_einsum_spec n = Some E ->
+    real_tensors n <> [] \/ vbids n <> [] -> contract_with E n data <> None.
+  Proof.
+    intros HE NE. destruct (spec_hyps E HE) as [lab [ts [vt [LI [Pts [Hvt [H1 [H2 [H3 H4]]]]]]]]].
+    apply (contract_with_total n data lab ts vt E Pts Hvt H1 H2 H3 H4).
+    destruct NE as [N|N]; [left | right].
+    - intros ->. apply N. apply Permutation_nil. exact Pts.
+    - unfold vbids in N. rewrite Hvt in N. exact N.
   Qed.
 End Spec.
